@@ -62,7 +62,8 @@ Hostile == <<255, 254, 15, 14, 5, 253>>
 Content(L) == IF L <= 6 THEN SubSeq(Hostile, 1, L) ELSE <<0 - L>>
 StrCases ==
     {Case("OctetString", Content(L)) : L \in {0, 1, 2, 3, 4, 5, 6, 252, 253, 254, 255, 256, 65534, 65535, 65536, 70000}}
-    \cup {Case("CharacterString", <<e>> \o Content(L)) : e \in {0, 3, 4, 5, 255}, L \in {0, 1, 3, 4, 5, 252, 253, 254, 65534, 65535, 65536}}
+    \cup {Case("CharacterString", <<e>> \o Content(L)) : e \in {0, 5, 255}, L \in {0, 1, 3, 4, 5, 252, 253, 254, 65534, 65535, 65536}}
+    \cup {Case("CharacterString", <<4, 0, 65, 32, 172>>), Case("CharacterString", <<3, 0, 0, 0, 65, 0, 1, 244, 0>>), Case("CharacterString", <<4>>)}
     \cup {Case("Utf8String", Content(0)), Case("Utf8String", <<-3>>), Case("Utf8String", <<-4>>), Case("Utf8String", <<-252>>),
           Case("Utf8String", <<-253>>), Case("Utf8String", <<-65534>>), Case("Utf8String", <<-65535>>), Case("Utf8String", <<-70000>>)}
     \cup {Case("Utf8String", <<x>>) : x \in {0, 65, 127, 128, 255, 2047, 2048, 55295, 57344, 65533, 65535, 65536, 1114111}}
@@ -106,12 +107,12 @@ Expect(i) ==
         v == CaseAt(i).v
         rep == Representable(ty, v)
         enc == rep /\ Encodable(ty)
-        ns == IF i <= NF THEN CtxEmit \cup {(7 * i) % 255} ELSE CtxEnum \cup {(7 * i) % 255}
+        ns == SetToSeq(IF i <= NF THEN CtxEmit \cup {(7 * i) % 255} ELSE CtxEnum \cup {(7 * i) % 255})
     IN  [i |-> i, gen |-> IF i <= NF THEN 0 ELSE Gen[i - NF].id, ty |-> ty, v |-> v, rep |-> rep,
          cap |-> IF enc THEN WithinCapacity(ty, v) ELSE FALSE,
          nan |-> (ty = "Real" /\ rep /\ RealNaN(v)) \/ (ty = "Double" /\ rep /\ DoubleNaN(v)),
          app |-> IF enc THEN Enc(-1, ty, v) ELSE <<>>,
-         ctx |-> IF enc THEN [k \in 1..Cardinality(ns) |-> LET n == SetToSeq(ns)[k] IN <<n>> \o Enc(n, ty, v)] ELSE <<>>]
+         ctx |-> IF enc THEN [k \in 1..Len(ns) |-> <<ns[k]>> \o Enc(ns[k], ty, v)] ELSE <<>>]
 WriteGrid == Injective /\ ndJsonSerialize(IOEnv.OUT_FILE, [i \in 1..(NF + Len(Gen)) |-> Expect(i)])
 
 \* ---- Rec --------------------------------------------------------------------------------------------------------
@@ -123,7 +124,7 @@ ImplRec ==
         rep == Representable(r.ty, r.v)
         e == IF rep THEN Enc(r.n, r.ty, r.v) ELSE <<>>
         why == (IF ~rep THEN {"unrepresentable"} ELSE {})
-               \cup (IF rep /\ e # r.o THEN {"enc"} ELSE {})
+               \cup (IF rep /\ ~EncOK(r.n, r.ty, r.v, r.o) THEN {"enc"} ELSE {})
                \cup (IF ~Same(r.ty, Dec(r.n, r.ty, r.o), r.d) THEN {"dec"} ELSE {})
                \cup (IF ~Same(r.ty, r.d, r.v) THEN {"roundtrip"} ELSE {})
     IN  why = {} \/ PrintT(<<"@@", [id |-> r.id, why |-> why, exp |-> Small(e), dec |-> Small(Dec(r.n, r.ty, r.o))]>>)
